@@ -624,9 +624,10 @@ Definition view (X : N) (o : obs) : list (list N) :=
 Definition outs_of (X : N) (o : obs) : list (list N) :=
   map (fun io => enc_sout (snd io)) (filter (fun io => fst io =? X) (o_outs o)).
 Definition owned (p X : N) (o : obs) : bool := existsb (fun r => (r_id r =? X) && (r_peer r =? p)) (o_rows o).
-Definition clean (X : N) (o : obs) : bool :=
-  negb (existsb (fun r => r_id r =? X) (o_rows o)) && negb (existsb (fun t => fst t =? X) (o_tq o)) &&
-  negb (existsb (fun x => fst x =? X) (o_execs o)).
+(* the id is free in the table.  A task or a parked executor that another peer's finished response
+   left behind under X does not make X "taken": whatever it does to p's response afterwards is what
+   that peer's messages did to it, and is compared (the run without the foreign peers has none). *)
+Definition clean (X : N) (o : obs) : bool := negb (existsb (fun r => r_id r =? X) (o_rows o)).
 
 (* two signals pending for X: which one the executor's select takes next is Go's random choice *)
 Definition racy (X : N) (o : obs) : bool :=
@@ -646,8 +647,8 @@ Fixpoint life (p X : N) (mine : bool) (hs : list (label * obs)) : list (list N *
            (if owned p X o && negb (racy X o) then life p X true r else [])
   end.
 
-(* drop the prefix in which X has not yet been requested by p; None when something else was recorded
-   under X before (the id was not free when p first asked: nothing is claimed) *)
+(* drop the prefix in which X has not yet been requested by p; None when the table held an entry for X
+   at that moment (the id was not free when p first asked: nothing is claimed) *)
 Fixpoint from_first_new (p X : N) (prev_clean : bool) (hs : list (label * obs)) : option (list (label * obs)) :=
   match hs with
   | [] => Some []
